@@ -17,6 +17,7 @@ import (
 	"syscall"
 
 	"verifsim/sim/kern"
+	"verifsim/sim/simrt"
 )
 
 // ErrNotFound is the error resulting if a path search failed to find an executable file.
@@ -88,6 +89,8 @@ type Cmd struct {
 	Stdout io.Writer
 	Stderr io.Writer
 	Err    error
+	// Process is the simulated process once it has been started.
+	Process *Process
 
 	ctx      context.Context
 	pipe     *stdinPipe
@@ -200,8 +203,40 @@ func (c *Cmd) Start() error {
 		return &fs.PathError{Op: "fork/exec", Path: c.Path, Err: syscall.Errno(r.Status)}
 	}
 	c.started = true
+	c.Process = &Process{Pid: 10000 + c.pid, pid: c.pid}
+	if c.ctx != nil && c.ctx.Done() != nil {
+		// like os/exec: when the context is done the process is killed
+		ctx, proc := c.ctx, c.Process
+		kern.Go("ctxwatch", func() {
+			simrt.Recv(ctx.Done(), "exec: context of a running command")
+			proc.Kill()
+		})
+	}
 	return nil
 }
+
+// Process mirrors the part of os.Process the code under test can reach through Cmd.Process.
+type Process struct {
+	Pid int
+	pid int
+}
+
+// Kill terminates the simulated process.
+func (p *Process) Kill() error {
+	if !kern.Active() || kern.Aborting() {
+		return nil
+	}
+	if r := kern.Call(kern.Req{Op: kern.OpProcKill, A: int64(p.pid)}); r.Status != 0 {
+		return errors.New("os: process already finished")
+	}
+	return nil
+}
+
+// Signal delivers a signal; every signal the code under test could send terminates the tool.
+func (p *Process) Signal(sig any) error { return p.Kill() }
+
+// Release is a no-op.
+func (p *Process) Release() error { return nil }
 
 // Wait waits for the simulated process to exit and delivers its output.
 func (c *Cmd) Wait() error {
